@@ -994,6 +994,9 @@ class TermCanvas(Canvas):
         else:
             row = self.scrollregion_start
 
+        if row > self.scrollregion_end:
+            return  # below the bottom margin: nothing to push down
+
         if lines == 0:
             lines = 1
         lines = min(lines, self.height)  # more than a full screen changes nothing further
@@ -1013,6 +1016,9 @@ class TermCanvas(Canvas):
             row = self.term_cursor[1]
         else:
             row = self.scrollregion_start
+
+        if row > self.scrollregion_end:
+            return  # below the bottom margin: nothing to pull up
 
         if lines == 0:
             lines = 1
